@@ -201,6 +201,24 @@ def gen_world(rng):
                 files.append({"path": f"{D}/{nm}", "content": "nested content\n"})
                 entries.append({"path": f"{D}/{nm}", "kind": "nested-override", "c": [holder_r], "l": [expr_r], "reads": None, "shadowed": f"{D}/{nm}"})
         files.append({"path": f"{D}/REUSE.toml", "content": G.reuse_toml([nested_table])})
+    if glob_kind == "toml" and rng.chance(0.3):
+        # one annotation with several globs, some matching a proper prefix of what another matches in full
+        # (*.js / *.json, *.c / *.cpp): the alternation the tool builds from the set must not depend on its order
+        holder_g, expr_g = "2012 Glob Owner", rng.pick(G.VALID)
+        pats = rng.sample(["mg/*.js", "mg/*.json", "mg/*.c", "mg/*.cpp", "mg/*.py", "mg/*.pyi", "mg/**/*.c", "mg/**/*.cpp"], rng.randint(3, 6))
+        tables.append({"path": pats, "precedence": "closest", "SPDX-FileCopyrightText": holder_g, "SPDX-License-Identifier": expr_g})
+        import fnmatch as _fn
+        for nm in ["mg/app.js", "mg/package.json", "mg/x.c", "mg/x.cpp", "mg/m.py", "mg/m.pyi", "mg/sub/y.c", "mg/sub/y.cpp"]:
+            def _m(pat, path):
+                import re as _re
+                rx = _re.escape(pat).replace(r"\*\*/", "(?:.*/)?").replace(r"\*\*", ".*").replace(r"\*", "[^/]*")
+                return _re.fullmatch(rx, path) is not None
+            hit = any(_m(pt, nm) for pt in pats)
+            files.append({"path": nm, "content": "plain text, no header\n"})
+            if hit:
+                entries.append({"path": nm, "kind": "closest", "c": [holder_g], "l": [expr_g], "reads": nm})
+            else:
+                entries.append({"path": nm, "kind": "plain", "c": [], "l": [], "reads": nm, "implied_defect": True})
     hardlinks = []
     if rng.chance(0.2) and entries:
         # a second name (hard link) for a file whose information lives in its .license companion: the information belongs
